@@ -27,6 +27,9 @@ theorem add_addr_bounds (cfg : Cfg) (ch : List Nat) (now : Nat) (c : Cache) (ma 
     (h : Bounded cfg c) : Bounded cfg (addAddr cfg ch now c ma) :=
   addAddr_bounded ma h
 
+/-- The operation lists include flushes whose write FAILS (`Op.flushFail`: disk full, read-only directory) and the periodic
+swap of `driver.rs` (`Op.swap`). For `flushFail` the proof needs `flushFailKeepsMemory` (read off `sync_and_flush_to_disk`):
+the shape that left the merge `memory ∪ file` behind is NOT bounded — `failed_flush_old_shape_unbounded`. -/
 theorem bounds_invariant (s : Sys) (ops : List Op) (h : BoundedSys s) :
     (∀ w ∈ (run s ops).ws, Bounded s.cfg w.mem) ∧
     (∀ ch d, load s.cfg ch (run s ops).now (run s ops).file = some d → Bounded s.cfg d) := by
@@ -176,8 +179,8 @@ theorem sync_keeps_both (c other : Cache) :
   ⟨fun _ h => syncCache_hasPeer_left other c h, fun _ _ h => syncCache_hasAddr_left other c h,
    syncCache_hasPeer_right other c, syncCache_hasAddr_right other c⟩
 
-/-- The flush without clean-up writes exactly that merge of the memory with what was loaded from the file. -/
-theorem flush_writes_merge (s : Sys) (i : Nat) (ch : List Nat) (hi : i < s.ws.length)
+/-- (unfolding lemma, not a property statement) what an uninterrupted flush without clean-up writes -/
+theorem flushOps_file (s : Sys) (i : Nat) (ch : List Nat) (hi : i < s.ws.length)
     (hd : (getW s.ws i).disabled = false) :
     (run s (flushOps i false ch)).file =
       .data (match load s.cfg ch s.now s.file with
@@ -187,6 +190,102 @@ theorem flush_writes_merge (s : Sys) (i : Nat) (ch : List Nat) (hi : i < s.ws.le
   rw [getW_modAt _ _ _ hi]
   simp only [hd]
   cases load s.cfg ch s.now s.file <;> simp
+
+/-- the cache a file holds (nothing when it is missing or unparsable) -/
+def fileCache : File → Cache
+  | .data c => c
+  | _ => []
+
+/-- **"Merging with the on-disk cache never loses a peer or address known to either side"**, stated at the moment store
+`i` commits a flush without clean-up: the file then holds every peer and address of the store's memory AND every peer and
+address `load_cache_data` (tie-break `ch0`) returns for the file as it is at that moment. -/
+def KeepsBoth (s : Sys) (i : Nat) (ch ch0 : List Nat) : Prop :=
+  (∀ p, HasPeer (getW s.ws i).mem p → HasPeer (fileCache (step s (.flushCommit i false ch)).file) p) ∧
+  (∀ p m, HasAddr (getW s.ws i).mem p m → HasAddr (fileCache (step s (.flushCommit i false ch)).file) p m) ∧
+  ∀ d, load s.cfg ch0 s.now s.file = some d →
+    ∀ e ∈ d, HasPeer (fileCache (step s (.flushCommit i false ch)).file) e.1 ∧
+      ∀ a ∈ e.2, HasAddr (fileCache (step s (.flushCommit i false ch)).file) e.1 a.ma
+
+/-- the full clause: in EVERY state (whatever other stores did since this store read the file) -/
+def merge_never_loses : Prop :=
+  ∀ (s : Sys) (i : Nat) (ch ch0 : List Nat), i < s.ws.length → (getW s.ws i).disabled = false → KeepsBoth s i ch ch0
+
+/-- the missing hypothesis: what the flush read is what the file holds now — no other writer committed between the two
+halves of this flush (`sync_and_flush_to_disk` takes no lock: lib.rs advertises "File locking", the code has none) -/
+def NoInterleaving (s : Sys) (i : Nat) (ch0 : List Nat) : Prop :=
+  (getW s.ws i).loaded = some (load s.cfg ch0 s.now s.file)
+
+/-- **Merging never loses a peer or address — for a flush that is not interleaved with another writer's commit.**
+The full clause is FALSE of the code (`interleaved_flush_loses_peer`, known finding K-c18-interleaved-flush-loses-peers). -/
+theorem merge_never_loses_partial (s : Sys) (i : Nat) (ch ch0 : List Nat) (hi : i < s.ws.length)
+    (hd : (getW s.ws i).disabled = false) (hn : NoInterleaving s i ch0) : KeepsBoth s i ch ch0 := by
+  have hf : (step s (.flushCommit i false ch)).file = .data (commitData s.cfg ch s.now false (getW s.ws i)) := by
+    simp [step, hi, hd]
+  unfold NoInterleaving at hn
+  unfold KeepsBoth
+  rw [hf]
+  simp only [fileCache, commitData, hn]
+  cases hl : load s.cfg ch0 s.now s.file with
+  | none =>
+    refine ⟨fun p h => by simpa using h, fun p m h => by simpa using h, ?_⟩
+    intro d hd'; simp at hd'
+  | some d =>
+    have hk := sync_keeps_both (getW s.ws i).mem d
+    refine ⟨fun p h => by simpa using hk.1 p h, fun p m h => by simpa using hk.2.1 p m h, ?_⟩
+    intro d' hd' e he
+    simp only [Option.some.injEq] at hd'
+    subst hd'
+    exact ⟨by simpa using hk.2.2.1 e he, fun a ha => by simpa using hk.2.2.2 e he a ha⟩
+
+/-- the hypothesis holds right after the load half, i.e. for `sync_and_flush_to_disk` run without interruption -/
+theorem uninterrupted_flush_no_interleaving (s : Sys) (i : Nat) (ch0 : List Nat) (hi : i < s.ws.length)
+    (hd : (getW s.ws i).disabled = false) : NoInterleaving (step s (.flushLoad i ch0)) i ch0 := by
+  simp only [NoInterleaving, step]
+  rw [getW_modAt _ _ _ hi]
+  simp [hd]
+
+/-! ### a flush whose write fails -/
+
+theorem step_flushLoad_keeps (s : Sys) (i : Nat) (ch : List Nat) (hi : i < s.ws.length) :
+    (step s (.flushLoad i ch)).file = s.file ∧ (getW (step s (.flushLoad i ch)).ws i).mem = (getW s.ws i).mem ∧
+    (step s (.flushLoad i ch)).ws.length = s.ws.length := by
+  refine ⟨rfl, ?_, by simp [step, length_modAt]⟩
+  simp only [step]
+  rw [getW_modAt _ _ _ hi]
+  split <;> rfl
+
+/-- **A flush whose write fails changes nothing**: the file is what it was (atomic replacement) and so is the store's
+memory — within its limits, and not merged with the file, so that the next attempt does not count the file's
+counters a second time. Depends on `flushFailKeepsMemory` (read off `sync_and_flush_to_disk`). -/
+theorem failed_flush_changes_nothing (s : Sys) (i : Nat) (wc : Bool) (ch : List Nat) (hi : i < s.ws.length) :
+    (run s (flushFailOps i wc ch)).file = s.file ∧
+    (getW (run s (flushFailOps i wc ch)).ws i).mem = (getW s.ws i).mem := by
+  obtain ⟨h1, h2, h3⟩ := step_flushLoad_keeps s i ch hi
+  have hi' : i < (step s (.flushLoad i ch)).ws.length := by rw [h3]; exact hi
+  have hk : ∀ (cfg : Cfg) (now : Nat) (w : Writer), failMem flushFailKeepsMemory cfg ch now wc w = w.mem := by
+    intro cfg now w; simp [failMem, flushFailKeepsMemory]
+  simp only [flushFailOps, run]
+  generalize step s (.flushLoad i ch) = s1 at h1 h2 hi'
+  rw [← h1, ← h2]
+  simp only [step]
+  split
+  · refine ⟨rfl, ?_⟩
+    rw [getW_modAt _ _ _ hi']
+    simpa using hk s1.cfg s1.now (getW s1.ws i)
+  · exact ⟨rfl, rfl⟩
+
+/-- **A flush with clean-up writes a cache within the limits and free of expired / unreliable addresses**, whatever the
+store had read from the file and whenever (so also when other writers interleaved). -/
+theorem flush_with_cleanup_bounded_clean (s : Sys) (i : Nat) (ch : List Nat) (hi : i < s.ws.length)
+    (hd : (getW s.ws i).disabled = false) :
+    ∃ c, (step s (.flushCommit i true ch)).file = .data c ∧ Bounded s.cfg c ∧
+      ∀ e ∈ c, ∀ a ∈ e.2, ¬ (a.fail > a.succ) ∧ a.seen ≤ s.now ∧ s.now - a.seen < s.cfg.expiry := by
+  refine ⟨commitData s.cfg ch s.now true (getW s.ws i), by simp [step, hi, hd], ?_, ?_⟩
+  · simp only [commitData, if_true]
+    exact removeOldest_bounded (cleanup_bounded _ _ _ _).2
+  · intro e he
+    simp only [commitData, if_true] at he
+    exact cleanup_drops_expired_and_unreliable _ _ _ _ e (removeOldest_mem he)
 
 /-- **Save then load is the identity apart from what clean-up removes** (the serialisation itself is abstract):
 loading right after `write` returns the clean-up of what was saved; if clean-up has nothing to remove the very
@@ -235,6 +334,12 @@ theorem step_file_loadable {s : Sys} {op : Op} (hop : op.isWriterOp = true) (h :
       · simp
       · exact h
     · exact h
+  | flushFail i wc ch =>
+    simp only [step]
+    split <;> exact h
+  | swap i j =>
+    simp only [step]
+    split <;> exact h
 
 /-- …and never removes or garbles an existing cache file -/
 theorem step_file_data {s : Sys} {op : Op} (hop : op.isWriterOp = true) (h : ∃ c, s.file = .data c) :
@@ -266,28 +371,17 @@ theorem step_file_data {s : Sys} {op : Op} (hop : op.isWriterOp = true) (h : ∃
       · exact ⟨_, rfl⟩
       · exact h
     · exact h
+  | flushFail i wc ch =>
+    simp only [step]
+    split <;> exact h
+  | swap i j =>
+    simp only [step]
+    split <;> exact h
 
-/-- A store has one effective location: rebuilding it (through `new` or `new_from_peers_args`, whatever the
-overrides) leaves the file exactly as it was unless `first` asks for an empty cache, and a flush by the rebuilt
-store reads and replaces that same file; a store with cache writing disabled (`local`) never changes it. -/
-theorem rebuild_same_file (s : Sys) (i : Nat) (dis : Bool) (wc : Bool) (ch : List Nat) (hi : i < s.ws.length) :
-    (step s (.rebuild i false dis)).file = s.file ∧
-    (step s (.rebuild i true dis)).file = .data [] ∧
-    (run (step s (.rebuild i false true)) (flushOps i wc ch)).file = s.file ∧
-    (run (step s (.rebuild i false false)) (flushOps i false ch)).file =
-      .data (match load s.cfg ch s.now s.file with | some d => syncCache [] d | none => []) := by
-  refine ⟨by simp [step, hi], by simp [step, hi], ?_, ?_⟩
-  · simp only [flushOps, run, step, hi, if_true, length_modAt]
-    rw [getW_modAt _ _ _ (by simpa [length_modAt] using hi)]
-    rw [getW_modAt _ _ _ hi]
-    simp
-  · have h1 : i < (step s (.rebuild i false false)).ws.length := by simp [step, hi, length_modAt]
-    have h2 : (getW (step s (.rebuild i false false)).ws i).disabled = false := by
-      simp only [step, hi, if_true]; rw [getW_modAt _ _ _ hi]
-    rw [flush_writes_merge _ i ch h1 h2]
-    simp only [step, hi, if_true]
-    rw [getW_modAt _ _ _ hi]
-    simp
+/-! Remark (not a theorem; it is the definition of `Op.rebuild` read back): a store has one effective location —
+rebuilding it through `new` / `new_from_peers_args` leaves the file as it was unless `first` asks for an empty cache, the
+rebuilt store reads and replaces that same file, and a store with cache writing disabled (`local`) never changes it. The
+tie to the code is the `mk` op of the harness (oracle clauses `store-location`, `first-clears`, `foreign-file-untouched`). -/
 
 /-- **Concurrent flushes leave a loadable file.** The file is an atomic register (`AtomicWriteFile` + rename,
 read off the source by the translator as `writeAtomic`). For any number of stores and ANY interleaving of their
@@ -318,40 +412,37 @@ theorem concurrent_flush_loadable (s : Sys) (ops : List Op) (hops : ∀ op ∈ o
       cases op <;> simp [Op.isWriterOp] at this <;> trivial
     exact (run_inv ops s hinv hok).2
 
-/-- every commit half of a flush, and every raw write, by an existing store leaves a cache in the file -/
-theorem commit_leaves_cache (s : Sys) (i : Nat) (wc : Bool) (ch : List Nat) (hi : i < s.ws.length)
-    (hd : (getW s.ws i).disabled = false) :
-    (∃ c, (step s (.flushCommit i wc ch)).file = .data c) ∧ (∃ c, (step s (.write i)).file = .data c) := by
-  simp [step, hi, hd]
-
-/-- **A corrupt or foreign file is ignored.** `load_cache_data` fails on it (it does not crash: the model is
-total), and a flush over it writes exactly the store's own memory (cleaned if asked) — the same as over a
-missing file — and leaves a loadable file. -/
-theorem corrupt_ignored (s : Sys) (i : Nat) (wc : Bool) (ch : List Nat) (hi : i < s.ws.length)
+/-- **A corrupt or foreign file is ignored and replaced.** `load_cache_data` fails on it (it does not crash: the model is
+total); a flush over it leaves a loadable file that holds every peer and address of the store's memory (flush without
+clean-up) resp. a cache within the limits and free of expired / unreliable addresses (flush with clean-up). -/
+theorem corrupt_ignored (s : Sys) (i : Nat) (ch : List Nat) (hi : i < s.ws.length)
     (hd : (getW s.ws i).disabled = false) (hf : s.file = .garbage ∨ s.file = .absent) :
     load s.cfg ch s.now s.file = none ∧
-    (run s (flushOps i wc ch)).file =
-      .data (if wc then removeOldest s.cfg ch s.now (cleanup s.cfg ch s.now (getW s.ws i).mem) else (getW s.ws i).mem) := by
+    (∃ c, (run s (flushOps i false ch)).file = .data c ∧
+      (∀ p, HasPeer (getW s.ws i).mem p → HasPeer c p) ∧ ∀ p m, HasAddr (getW s.ws i).mem p m → HasAddr c p m) ∧
+    (∃ c, (run s (flushOps i true ch)).file = .data c ∧ Bounded s.cfg c ∧
+      ∀ e ∈ c, ∀ a ∈ e.2, ¬ (a.fail > a.succ) ∧ a.seen ≤ s.now ∧ s.now - a.seen < s.cfg.expiry) := by
   have hl : load s.cfg ch s.now s.file = none := by
     rcases hf with h | h <;> simp [h, load]
-  refine ⟨hl, ?_⟩
-  simp only [flushOps, run, step, length_modAt, hi, commitData]
-  rw [getW_modAt _ _ _ hi]
-  simp [hl, hd]
+  refine ⟨hl, ?_, ?_⟩
+  · refine ⟨(getW s.ws i).mem, ?_, fun p h => h, fun p m h => h⟩
+    rw [flushOps_file s i ch hi hd, hl]
+  · obtain ⟨h1, h2, h3⟩ := step_flushLoad_keeps s i ch hi
+    have hd' : (getW (step s (.flushLoad i ch)).ws i).disabled = false := by
+      simp only [step]; rw [getW_modAt _ _ _ hi]; simp [hd]
+    obtain ⟨c, hc, hb, hcl⟩ := flush_with_cleanup_bounded_clean (step s (.flushLoad i ch)) i ch (by rw [h3]; exact hi) hd'
+    exact ⟨c, by simpa [flushOps, run] using hc, hb, hcl⟩
 
-/-- **A corrupt, foreign or missing cache file never makes start-up fail.** `PeersArgs::get_bootstrap_addr` (the
-path antnode, the CLI and the client take to find their first peers) gives, over an unparsable cache file, exactly
-the result it gives with no cache file at all — whatever the flags, `--peer` arguments, `ANT_PEERS` and `count`;
-and over ANY file content it succeeds whenever it succeeds without a cache file (the cache only ever adds
-addresses). Depends on the load result being consumed with `if let Ok(..)` (`startupIgnoresLoadError`, read off
-the source). -/
-theorem startup_ignores_corrupt_cache (cfg : Cfg) (ch ord : List Nat) (now : Nat) (args : StartArgs) (env : List Ma) :
-    startup cfg ch ord now args env .garbage = startup cfg ch ord now args env .absent := by
-  simp [startup, load, startupIgnoresLoadError]
-
+/-- **No CONTENT of the cache file ever makes start-up fail.** `PeersArgs::get_bootstrap_addr` (the path antnode, the CLI
+and the client take to find their first peers) succeeds over ANY file content — unparsable, foreign, missing, valid —
+whenever it succeeds with no cache file at all, for the same flags, `--peer` arguments, `ANT_PEERS`, `count` and the same
+state `dir` of the `--bootstrap-cache-dir` argument (the cache only ever adds addresses); over an unparsable file the
+result is exactly the one with no file (by unfolding: `startup … .garbage = startup … .absent`, see the `example` below).
+Depends on the load result being consumed with `if let Ok(..)` (`startupIgnoresLoadError`, read off the source).
+What CAN fail start-up is not the file but the directory argument: `startup_fails_on_unusable_cache_dir`. -/
 theorem startup_never_fails_because_of_cache (cfg : Cfg) (ch ord : List Nat) (now : Nat) (args : StartArgs)
-    (env : List Ma) (file : File) (h : okB (startup cfg ch ord now args env .absent) = true) :
-    okB (startup cfg ch ord now args env file) = true := by
+    (env : List Ma) (dir : DirKind) (file : File) (h : okB (startup cfg ch ord now args env dir .absent) = true) :
+    okB (startup cfg ch ord now args env dir file) = true := by
   simp only [startup, load, startupIgnoresLoadError, Bool.true_or, if_true] at h ⊢
   split
   · rfl
@@ -368,22 +459,147 @@ theorem startup_never_fails_because_of_cache (cfg : Cfg) (ch ord : List Nat) (no
           split
           · rw [if_pos (by assumption)] at h; exact h
           · rw [if_neg (by assumption)] at h
-            have hne : (List.map (startAddr now) (List.filterMap craft args.addrs)).isEmpty = false := by
-              simp only [finish] at h
-              split at h
-              · simp [okB] at h
-              · rename_i hx; simpa using hx
-            cases file with
-            | absent => exact h
-            | garbage => exact h
-            | data c =>
-              simp only [finish]
-              have : (List.map (startAddr now) (List.filterMap craft args.addrs) ++
-                  cachePicks ord (if loadCleans = true then cleanup cfg ch now c else c)).isEmpty = false := by
-                cases hl : List.map (startAddr now) (List.filterMap craft args.addrs) with
-                | nil => simp [hl] at hne
-                | cons x t => simp
-              simp [this, okB]
+            cases hde : dirErr dir with
+            | some e => simp [hde, okB] at h
+            | none =>
+              simp only [hde] at h ⊢
+              have hne : (List.map (startAddr now) (List.filterMap craft args.addrs)).isEmpty = false := by
+                simp only [finish] at h
+                split at h
+                · simp [okB] at h
+                · rename_i hx; simpa using hx
+              cases file with
+              | absent => exact h
+              | garbage => exact h
+              | data c =>
+                simp only [finish]
+                have : (List.map (startAddr now) (List.filterMap craft args.addrs) ++
+                    cachePicks ord (if loadCleans = true then cleanup cfg ch now c else c)).isEmpty = false := by
+                  cases hl : List.map (startAddr now) (List.filterMap craft args.addrs) with
+                  | nil => simp [hl] at hne
+                  | cons x t => simp
+                simp [this, okB]
+
+/-- the cache step of `get_bootstrap_addr` is reached: not `--first`, no usable `ANT_PEERS`, not `--local`, fewer `--peer`
+arguments than `count`, not `--ignore-cache` -/
+def ReachesCache (now : Nat) (args : StartArgs) (env : List Ma) : Prop :=
+  args.first = false ∧ ((env.filterMap craft).map (startAddr now)).isEmpty = true ∧ args.local = false ∧
+  enough args.count ((args.addrs.filterMap craft).map (startAddr now)) = false ∧ args.ignoreCache = false
+
+/-- **…but an unusable `--bootstrap-cache-dir` does** (C18-4, outside the file-content model until round 6): when the
+cache step is reached, `get_bootstrap_cache_path()?` hands `InvalidBootstrapCacheDir` (the argument names a regular file)
+or the I/O error of `create_dir_all` (it cannot be created) to the caller — whatever the cache file holds and however
+many `--peer` addresses were given; with a usable directory argument (absent, a directory, or creatable) no error of the
+cache step reaches the caller. -/
+theorem startup_fails_on_unusable_cache_dir (cfg : Cfg) (ch ord : List Nat) (now : Nat) (args : StartArgs)
+    (env : List Ma) (dir : DirKind) (file : File) (hr : ReachesCache now args env) :
+    (dir = .isFile → startup cfg ch ord now args env dir file = .error .badDir) ∧
+    (dir = .uncreatable → startup cfg ch ord now args env dir file = .error .cache) ∧
+    (dir ≠ .isFile → dir ≠ .uncreatable → startup cfg ch ord now args env dir file ≠ .error .cache ∧
+      startup cfg ch ord now args env dir file ≠ .error .badDir) := by
+  obtain ⟨h1, h2, h3, h4, h5⟩ := hr
+  refine ⟨?_, ?_, ?_⟩
+  · intro hd; subst hd
+    simp [startup, h1, h2, h3, h4, h5, dirErr]
+  · intro hd; subst hd
+    simp [startup, h1, h2, h3, h4, h5, dirErr]
+  · intro hd1 hd2
+    have hde : dirErr dir = none := by cases dir <;> simp_all [dirErr]
+    simp only [startup, h1, h2, h3, h4, h5, hde, startupIgnoresLoadError, Bool.true_or, if_true]
+    constructor <;> (cases load cfg ch now file <;> simp [finish] <;> split <;> simp)
+
+/-- **What antnode's own start-up does with the cache** (`new_from_peers_args(..)?` then `sync_and_flush_to_disk(true)?`,
+antnode/main.rs): it ends the process exactly when the directory argument is unusable, or the cache file cannot be
+written while the node is `--first` or cache writing is enabled (not `--local`). The CONTENT of the cache file plays no
+part (it is not an argument of `nodeStart`; a flush over any content writes a cache: `corrupt_ignored`,
+`flush_with_cleanup_bounded_clean`). -/
+theorem node_start_fails_iff (dir : DirKind) (first loc writeFails : Bool) :
+    nodeStart dir first loc writeFails ≠ .ok () ↔
+      (dir = .isFile ∨ dir = .uncreatable ∨ (writeFails = true ∧ (first = true ∨ loc = false))) := by
+  cases dir <;> cases first <;> cases loc <;> cases writeFails <;> simp [nodeStart, dirErr]
+
+/-! ### the periodic save of `ant-networking/src/driver.rs` -/
+
+/-- one periodic save run without interruption: swap in a fresh store (slot `i` continues, slot `j` is the spawned
+task's store), then `old_cache.sync_and_flush_to_disk(periodicFlushCleans)` -/
+def periodicOps (i j : Nat) (ch1 ch : List Nat) : List Op :=
+  [.swap i j, .flushLoad j ch1, .flushCommit j periodicFlushCleans ch]
+
+theorem getW_modAt_ne (f : Writer → Writer) : ∀ (i j : Nat) (ws : List Writer), i ≠ j →
+    getW (modAt f i ws) j = getW ws j := by
+  intro i j ws
+  induction ws generalizing i j with
+  | nil => intro _; simp [modAt]
+  | cons a t ih =>
+    intro h
+    cases i with
+    | zero =>
+      cases j with
+      | zero => exact absurd rfl h
+      | succ j => simp [modAt, getW]
+    | succ i =>
+      cases j with
+      | zero => simp [modAt, getW]
+      | succ j =>
+        have := ih i j (by omega)
+        simp only [getW, modAt, List.getD_cons_succ] at this ⊢
+        exact this
+
+/-- **The periodic save keeps every promise of the property about the file and the live store**: the live store
+continues empty (so within its limits), and the file the spawned task writes is a cache within the limits, free of
+expired and unreliable addresses — at whatever later time the task's two halves run and whatever other stores (or
+earlier spawned tasks of the same process) did in between: the statement is about ANY state in which slot `j` commits.
+Depends on the flush being called with clean-up (`periodicFlushCleans`, read off driver.rs). -/
+theorem periodic_flush_bounded_clean (s : Sys) (i j : Nat) (ch1 ch : List Nat) (hi : i < s.ws.length)
+    (hj : j < s.ws.length) (hij : i ≠ j) (hd : (getW s.ws i).disabled = false) :
+    (getW (run s (periodicOps i j ch1 ch)).ws i).mem = [] ∧
+    ∃ c, (run s (periodicOps i j ch1 ch)).file = .data c ∧ Bounded s.cfg c ∧
+      ∀ e ∈ c, ∀ a ∈ e.2, ¬ (a.fail > a.succ) ∧ a.seen ≤ s.now ∧ s.now - a.seen < s.cfg.expiry := by
+  have hcond : (decide (i < s.ws.length) && (decide (j < s.ws.length) && decide (i ≠ j))) = true := by simp [hi, hj, hij]
+  have hs1 : step s (.swap i j) = { s with ws := modAt (fun _ => ⟨[], none, (getW s.ws i).disabled⟩) i (modAt (fun _ => ⟨(getW s.ws i).mem, none, (getW s.ws i).disabled⟩) j s.ws) } := by
+    simp only [step, hcond, if_true]
+  obtain ⟨hlen1, hmi1, hdj1, hcfg1, hnow1⟩ : (step s (.swap i j)).ws.length = s.ws.length ∧
+      (getW (step s (.swap i j)).ws i).mem = [] ∧ (getW (step s (.swap i j)).ws j).disabled = false ∧
+      (step s (.swap i j)).cfg = s.cfg ∧ (step s (.swap i j)).now = s.now := by
+    rw [hs1]
+    refine ⟨by simp [length_modAt], ?_, ?_, rfl, rfl⟩
+    · simp only []
+      rw [getW_modAt _ _ _ (by simpa [length_modAt] using hi)]
+    · simp only []
+      rw [getW_modAt_ne _ _ _ _ hij, getW_modAt _ _ _ hj]
+      exact hd
+  have hpc : periodicFlushCleans = true := rfl
+  simp only [periodicOps, run, hpc]
+  generalize step s (.swap i j) = s1 at hlen1 hmi1 hdj1 hcfg1 hnow1
+  have hj1 : j < s1.ws.length := by rw [hlen1]; exact hj
+  -- the load half by slot j
+  obtain ⟨hlen2, hmi2, hdj2, hcfg2, hnow2⟩ : (step s1 (.flushLoad j ch1)).ws.length = s.ws.length ∧
+      (getW (step s1 (.flushLoad j ch1)).ws i).mem = [] ∧ (getW (step s1 (.flushLoad j ch1)).ws j).disabled = false ∧
+      (step s1 (.flushLoad j ch1)).cfg = s.cfg ∧ (step s1 (.flushLoad j ch1)).now = s.now := by
+    refine ⟨by simp [step, length_modAt, hlen1], ?_, ?_, hcfg1, hnow1⟩
+    · simp only [step]
+      rw [getW_modAt_ne _ _ _ _ (Ne.symm hij)]
+      exact hmi1
+    · simp only [step]
+      rw [getW_modAt _ _ _ hj1]
+      simp [hdj1]
+  generalize step s1 (.flushLoad j ch1) = s2 at hlen2 hmi2 hdj2 hcfg2 hnow2
+  have hj2 : j < s2.ws.length := by rw [hlen2]; exact hj
+  obtain ⟨c, hc, hb, hcl⟩ := flush_with_cleanup_bounded_clean s2 j ch hj2 hdj2
+  refine ⟨?_, c, hc, by rw [← hcfg2]; exact hb, by rw [← hcfg2, ← hnow2]; exact hcl⟩
+  simp only [step, hj2, hdj2, decide_true, Bool.not_false, Bool.and_self, if_true]
+  rw [getW_modAt_ne _ _ _ _ (Ne.symm hij)]
+  exact hmi2
+
+/-- the save interval after a periodic save stays positive (`tokio::time::interval` panics on a zero period) provided the
+current period is at least a second and `cache_save_scaling_factor`, `max_cache_save_duration` are at least 1; with a
+scaling factor of 0 (the field is public) the next period is 0 — an observation, not a clause of C18 -/
+theorem periodic_interval_positive (cur factor maxv : Nat) (h1 : 1 ≤ cur) (h2 : 1 ≤ factor) (h3 : 1 ≤ maxv) :
+    1 ≤ nextSavePeriod cur factor maxv ∧ nextSavePeriod cur 0 maxv = 0 := by
+  refine ⟨?_, by simp [nextSavePeriod]⟩
+  simp only [nextSavePeriod]
+  have : 1 ≤ cur * factor := Nat.mul_pos h1 h2
+  omega
 
 /-! ## Non-vacuity and concrete instances -/
 
@@ -422,6 +638,68 @@ example : Clean cfg22 10 [(1, [⟨q 1 1 1, 1, 0, 5⟩])] := by
   intro a ha; simp at ha; subst ha; decide
 -- a corrupt file is overwritten by a flush
 example : (run { Sys.init cfg22 1 with file := .garbage } (flushOps 0 true [])).file = .data [] := by decide
+-- over an unparsable cache file start-up gives exactly the result it gives with no cache file (by unfolding)
+example (cfg : Cfg) (ch ord : List Nat) (now : Nat) (args : StartArgs) (env : List Ma) (dir : DirKind) :
+    startup cfg ch ord now args env dir .garbage = startup cfg ch ord now args env dir .absent := by
+  simp [startup, load, startupIgnoresLoadError]
+
+/-! ## Witnesses: what the code does NOT guarantee -/
+
+/-- two stores, one file: store 0 holds peer 1, store 1 holds peer 2; both have read the (missing) file, store 0 has
+committed (file = {1}, its memory cleared) and store 1 is about to commit -/
+def raceState : Sys :=
+  run (Sys.init cfg22 2)
+    [.tick 1, .add 0 (q 1 1 1) [], .tick 1, .add 1 (q 1 1 2) [], .flushLoad 0 [], .flushLoad 1 [], .flushCommit 0 false []]
+
+/-- **Witness (K-c18-interleaved-flush-loses-peers): interleaved flushes lose a peer for good.** Store 1 commits what it
+read BEFORE store 0's commit: the file loses peer 1, which store 0 has already cleared from its memory — the peer is in
+no file and in no memory. The full clause `merge_never_loses` is false of the code. -/
+theorem interleaved_flush_loses_peer : ¬ merge_never_loses := by
+  intro h
+  have h3 := ((h raceState 1 [] [] (by decide) (by decide)).2.2 [(1, [⟨q 1 1 1, 1, 0, 1000001⟩])] (by decide)
+    (1, [⟨q 1 1 1, 1, 0, 1000001⟩]) (by simp)).1
+  simp only [HasPeer] at h3
+  revert h3
+  decide
+
+-- …and after that commit peer 1 is in no store's memory either
+example : (step raceState (.flushCommit 1 false [])).ws = [⟨[], none, false⟩, ⟨[], none, false⟩] ∧
+    (step raceState (.flushCommit 1 false [])).file = .data [(2, [⟨q 1 1 2, 1, 0, 1000002⟩])] := by decide
+
+-- the same inside ONE process: two periodic saves of driver.rs whose spawned flushes overlap (slots 1 and 2)
+example : (run (Sys.init cfg22 3)
+    [.tick 1, .add 0 (q 1 1 1) [], .swap 0 1, .flushLoad 1 [], .tick 1, .add 0 (q 1 1 2) [], .swap 0 2, .flushLoad 2 [],
+     .flushCommit 1 true [], .flushCommit 2 true []]).file = .data [(2, [⟨q 1 1 2, 1, 0, 1000002⟩])] := by decide
+
+-- a periodic save whose write fails: the error is only logged and the spawned task's store is dropped (slot 1 is
+-- overwritten by the next swap) — the peers of that interval are gone (an observation: a failed write is not a merge)
+example : (run (Sys.init cfg22 2)
+    [.tick 1, .add 0 (q 1 1 1) [], .swap 0 1, .flushLoad 1 [], .flushFail 1 true [], .swap 0 1]).ws
+      = [⟨[], none, false⟩, ⟨[], none, false⟩] := by decide
+
+/-- `max_peers = 1`; peer 1 is in the file, peer 2 in the store's memory, and the store has done the load half of a flush -/
+def oldShapeState : Sys :=
+  run (Sys.init ⟨1, 2, 100⟩ 1)
+    ([.tick 2, .add 0 (q 1 1 1) []] ++ flushOps 0 false [] ++ [.tick 2, .add 0 (q 1 1 2) [], .flushLoad 0 []])
+
+/-- **Witness (fixed shape): the merge a failed write left behind.** Before the repair `sync_and_flush_to_disk` merged the
+file into the store's own memory and returned on a write error: with `max_peers = 1`, one peer in the file and another in
+memory, a failed flush without clean-up left two peers in a store limited to one (and the next attempt merged the file's
+counters a second time). `failMem false` is that shape; `bounds_invariant` needs `flushFailKeepsMemory`. -/
+theorem failed_flush_old_shape_unbounded :
+    BoundedSys oldShapeState ∧
+    ¬ Bounded oldShapeState.cfg (failMem false oldShapeState.cfg [] oldShapeState.now false (getW oldShapeState.ws 0)) := by
+  constructor
+  · exact run_bounded _ _ (init_bounded _ _)
+  · intro h
+    have := h.1
+    revert this
+    decide
+
+-- the repaired shape on the same history: the memory is what it was
+example : (getW (run (Sys.init ⟨1, 2, 100⟩ 1)
+      ([.tick 2, .add 0 (q 1 1 1) []] ++ flushOps 0 false [] ++ [.tick 2, .add 0 (q 1 1 2) []] ++ flushFailOps 0 false [])).ws 0).mem
+    = [(2, [⟨q 1 1 2, 1, 0, 1000004⟩])] := by decide
 
 end SafeNet.Props.C18
 
@@ -435,11 +713,17 @@ end SafeNet.Props.C18
 #print axioms SafeNet.Props.C18.sort_key_constant_after_filter
 #print axioms SafeNet.Props.C18.eviction_choice_legal
 #print axioms SafeNet.Props.C18.sync_keeps_both
-#print axioms SafeNet.Props.C18.flush_writes_merge
+#print axioms SafeNet.Props.C18.merge_never_loses_partial
+#print axioms SafeNet.Props.C18.uninterrupted_flush_no_interleaving
+#print axioms SafeNet.Props.C18.interleaved_flush_loses_peer
+#print axioms SafeNet.Props.C18.failed_flush_changes_nothing
+#print axioms SafeNet.Props.C18.failed_flush_old_shape_unbounded
+#print axioms SafeNet.Props.C18.flush_with_cleanup_bounded_clean
 #print axioms SafeNet.Props.C18.save_load_identity_mod_cleanup
-#print axioms SafeNet.Props.C18.rebuild_same_file
 #print axioms SafeNet.Props.C18.concurrent_flush_loadable
-#print axioms SafeNet.Props.C18.commit_leaves_cache
 #print axioms SafeNet.Props.C18.corrupt_ignored
-#print axioms SafeNet.Props.C18.startup_ignores_corrupt_cache
 #print axioms SafeNet.Props.C18.startup_never_fails_because_of_cache
+#print axioms SafeNet.Props.C18.startup_fails_on_unusable_cache_dir
+#print axioms SafeNet.Props.C18.node_start_fails_iff
+#print axioms SafeNet.Props.C18.periodic_flush_bounded_clean
+#print axioms SafeNet.Props.C18.periodic_interval_positive
